@@ -7,6 +7,7 @@ CONSTANTS
   Txs <- MCTxs
   Ticks <- MCTicks
   MaxTicks = 2
-  MaxObj = 3
+  MaxObj = 2
 CONSTRAINT Bound
-INVARIANTS Reach_Leak
+INVARIANTS SweptClean InOnlyPrimary Connected
+PROPERTIES LeakStable LiveKept
